@@ -1520,6 +1520,24 @@ package gedcom
 //@   trusted
 //@   pure
 
+// C11 (the stages run one after the other): the pointer stage's "already sent"
+// guards only protect against individuals the unique-identifier stage has
+// COMPLETELY processed, so the producer calls the unique-identifier stage, and
+// only after it has returned the pointer stage - each once, itself (not from a
+// helper goroutine) - before the totals are closed.
+//@ func createJobs$1
+//@   props C11
+//@   ghost nU int = 0
+//@   ghost nP int = 0
+//@   ghost closed int = 0
+//@   opaque createUniqueJobs, createPointerJobs
+//@   oncall createUniqueJobs check first-and-once: nU == 0 && nP == 0 && closed == 0
+//@   oncall createUniqueJobs do nU = nU + 1
+//@   oncall createPointerJobs check after-the-unique-stage-returned: nU == 1 && nP == 0 && closed == 0
+//@   oncall createPointerJobs do nP = nP + 1
+//@   oncall close do closed = closed + 1
+//@   ensures both-stages-ran-when-there-is-a-right-side: implies(len(right) > 0, nU == 1 && nP == 1)
+
 // C11 (sequential part): the winners. Certain matches are passed on and both
 // sides marked; of the remaining candidates, in order of similarity, a pair is
 // taken only when both sides are still unmatched, and both are marked (a
@@ -1780,6 +1798,30 @@ package gedcom
 //@   ensures nil-never-equal: implies(node == nil || tag(node2) == 0 || data(node2) == 0, !result)
 //@   ensures undated-events-compare-their-children-as-sets: implies(nL == 0 && nR == 0 && nVal == 2 && vL == vR, nKids == 1 && result == kids)
 //@   ensures undated-events-with-different-values-differ: implies(nL == 0 && nR == 0 && nVal == 2 && vL != vR, !result)
+// dated events: every date of the one is tried against every date of the
+// other (no date is skipped) until a pair is equal, and an equal pair decides
+//@   ghost nAsk int = 0
+//@   ghost yes bool = false
+//@   oncall DateNode.Equals check this-pair-of-dates: arg0 == left && data(arg1) == right
+//@   oncall DateNode.Equals do nAsk = nAsk + 1; yes = result
+//@   loop 1 invariant no-equal-pair-yet: !yes
+//@   loop 2 invariant every-right-date-so-far: !yes && nAsk == outer(nAsk) + rangeindex + 1 && rangeindex < len(rightDates)
+//@   loop 2 iter went-on-after-a-no: !yes
+//@   loop 1 iter every-right-date-tried: nAsk - old(nAsk) == len(rightDates)
+//@   ensures an-equal-pair-of-dates-decides: implies(yes, result)
+//@ func ResidenceNode.Equals
+//@   props C07
+//@   ghost nAsk int = 0
+//@   ghost yes bool = false
+//@   opaque ResidenceNode.Dates, DeepEqualNodes, DateNode.Equals, NodesWithTag
+//@   oncall DateNode.Equals check this-pair-of-dates: arg0 == left && data(arg1) == right
+//@   oncall DateNode.Equals do nAsk = nAsk + 1; yes = result
+//@   loop 1 invariant no-equal-pair-yet: !yes
+//@   loop 2 invariant every-right-date-so-far: !yes && nAsk == outer(nAsk) + rangeindex + 1 && rangeindex < len(rightDates)
+//@   loop 2 iter went-on-after-a-no: !yes
+//@   loop 1 iter every-right-date-tried: nAsk - old(nAsk) == len(rightDates)
+//@   ensures nil-never-equal: implies(node == nil || tag(node2) == 0 || data(node2) == 0, !result)
+//@   ensures an-equal-pair-of-dates-decides: implies(yes, result)
 
 // C07 (what a copy is made of): the copy of one node is made by the node
 // constructor from exactly the tag, the value and the pointer the source
